@@ -38,6 +38,7 @@ func init() {
 			{ID: "C07.R17", Text: "the observe loop is ended ⇔ it runs: Stop and reconfigure stop the timer, send the close request and await the acknowledgement exactly under observeTimer≠nil; reconfigure dies on an unreadable cluster map; the first configuration is recorded under err==nil", Run: mitigationStopHandshake},
 			{ID: "C07.R18", Text: "the mitigation is switched off only for a bucket that really is ephemeral (same rule as C18.R7)", Run: bucketPredicates},
 			{ID: "C07.R19", Text: "a copy leaves the minimum only because the cluster map does not list it: the absent mark is written only by the record's setter, which is called only from the cluster-map lookup (no error path, no pruning of the active copy)", Run: absentMarkWriters},
+			{ID: "C07.R20", Text: "once the threshold covers a waiting event that event is delivered: no lossy wake-up (same rule as C03.R16) and the observer that holds the threshold survives a re-open (same rule as C03.R15)", Run: func(c *Ctx, id string) { lossySignals(c, id); observerMapWriters(c, id) }},
 			{ID: "C07.R6", Text: "close releases without delivering: observer.Close sets closed; listener called ⇔ ¬closed", Run: c07r6},
 		},
 	})
